@@ -461,6 +461,10 @@ def execute(plan: Dict[str, Any]) -> Dict[str, Any]:
                 if d:
                     raise Violation("I7_state_carried", "derived_module_state_differs_from_source",
                                     f"{op['T']} on {chain_key(chain)}: {d} {where}")
+                d = tw.sharing_diff(base, new)
+                if d:
+                    raise Violation("I7_state_carried", "parameter_sharing_changed",
+                                    f"{op['T']} on {chain_key(chain)}: {d} {where}")
                 if src and src.perturbed:
                     probe("derive_from_perturbed_member")
                 mods.append(Mod(new, chain + [op["T"]]))
